@@ -855,7 +855,10 @@ pub fn run(seed: u64, n: usize, out: &mut Out) {
                     "eof" | "eofmid" | "exacteof" => "eof",
                     _ => "open",
                 };
-                if r.end != want_end {
+                // why the SERVER closed a connection is told apart only by the wording of its log lines; the
+                // observable is closed / open / closed after our half-close
+                let cls = |e: &str| -> String { if matches!(e, "quit" | "error" | "overflow") { "closed".into() } else { e.to_string() } };
+                if cls(&r.end) != cls(want_end) {
                     let prop = if st.kind == "big" || st.kind == "oversize" { "C13" } else { "C10" };
                     out.violation(prop, format!("connection ended '{}' where '{}' is expected (stream kind {}, {} bytes, chunking {nm})", r.end, want_end, st.kind, st.bytes.len()), vec![short(l)]);
                 }
